@@ -548,6 +548,7 @@ def runSection (r : Report) (sec : Section) : Report := Id.run do
       r := { r with ops := r.ops + 1 }
       r := r.addCover (opKind op)
       if via.any (· > 0) then r := r.addCover "op-through-a-later-instance"
+      if l.op.contains "nc=1" then r := r.addCover s!"context-free-wrapper-{opKind op}"
       let dbf := match op with | .take _ _ _ d => d | _ => false
       let multi := Spec.classesOf kinds via > 1
       let impl := joinSp l.obs
